@@ -242,3 +242,27 @@ def run(facts):
     res.floor("extent sinks", n_sinks, 25)
     res.floor("owner observations in functions with sinks", n_obs, 40)
     return res
+
+
+def run_deep(facts):
+    """thorough tier: the same dataflow on every function with its crate-local callees spliced in (two levels)"""
+    from .inline import inlined
+    res = Result("A23+views", "A23 on the inlined views of every function (helpers spliced in, two levels)")
+    a = A23(facts)
+    n = 0
+    for b in facts.fn_bodies():
+        if facts.is_test(b) or b.kind not in ("fn", "assoc_fn"):
+            continue
+        ib = inlined(facts, b, depth=2)
+        if not (ib._cache.get("inlined_from") or ()) or not any(is_rawptr_ty(l["ty"]) for l in ib.locals):
+            continue
+        viol, st = a.analyse(ib)
+        if not st["sinks"]:
+            continue
+        n += 1
+        for key, (loc, text) in sorted(viol.items()):
+            res.bad(key + " (in the view of %s)" % b.id.rsplit("::", 1)[-1], b.loc(), text)
+        if not viol:
+            res.ok("%s|extents from one state in the inlined view" % b.id, b.loc(), "%d extent sink(s)" % st["sinks"], nontrivial=bool(st["chg"] and st["obs"]))
+    res.floor("inlined views analysed", n, 8)
+    return res
